@@ -41,8 +41,8 @@ def mc_pair(vd, tier, invs=None, tag="pair"):
     cfgs = [pair_consts()] if tier == "quick" else [pair_consts(), pair_consts(CapB=1, DataA=3, TxCap=3), pair_consts(DupBudget=1, DataA=2), pair_consts(Nagle=True)]
     for i, c in enumerate(cfgs):
         cfg = write_cfg("TcpModel_%s%d" % (tag, i), cfg_text(c, invs or PAIR_INV))
-        r = tlc("TcpModel", cfg, workers=12, tag="tcp.%s.%d" % (tag, i), timeout=3000, collect=())
-        vd.add_model("TcpModel pair %s" % json.dumps({k: v for k, v in c.items() if not k.startswith("Dev")}), r,
+        r = tlc("TcpModel", cfg, workers=12, tag="tcp.%s.%d" % (tag, i), timeout=3000 if i == 0 else 1500, collect=(), allow_timeout=(i > 0))
+        vd.add_model("TcpModel pair %s%s" % (json.dumps({k: v for k, v in c.items() if not k.startswith("Dev")}), " (PARTIAL: stopped by the time limit)" if r.timed_out else ""), r,
                      "two endpoints, drop/dup/reorder network, atomic polls; invariants " + ",".join(invs or PAIR_INV))
         if r.violated:
             raise ToolError("TcpModel (code as fixed) violates %s in config %d (log %s) -- specification-level finding, "
